@@ -13,9 +13,9 @@ import (
 func TestVerifC10KeyMessage(t *testing.T) {
 	r := &c10Rand{s: c10Seed() ^ 0xc1010}
 	out := newC10Out(t)
-	n := 40
+	n := 30
 	if c10Thorough() {
-		n = 2000
+		n = 500
 	}
 	curves := []struct {
 		c elliptic.Curve
